@@ -13,6 +13,10 @@
 //!       harness crate cannot name rayon); the caller is the watchdog: no END within its
 //!       timeout after a BEGIN = the analysis hangs.
 //!   c04 one <case.json> <workdir> <k> <seed>      (replay; prints full observables)
+//!   c04 symtab <seed> <rounds> <t1,t2,...>
+//!       direct stress of `SymbolTable`: t threads intern the same fresh basic / extended
+//!       identifiers simultaneously; every thread must get the table's symbol, equal ids
+//!       exactly for identifiers that are equal by the VHDL rules
 use serde_json::{json, Value};
 use std::collections::BTreeSet;
 use std::io::Write;
@@ -32,7 +36,10 @@ enum Kind {
 
 #[derive(Clone, Debug)]
 struct Req {
-    k: &'static str, // of | u | ua | n | s | l | i | j
+    k: &'static str, // of | u | ua | x | n | s | l | i | j
+                     // x: `use l.p.k(0);` (not a selected name; propagates a circular error since fix 052b116)
+                     // s: `alias g is true [nonexistent_t, l.p.k return boolean];` (resolve_signature returns
+                     //    the Unknown of the first type mark: the circular error of the second is discarded)
     t: usize,        // target unit (library index for `l`)
 }
 
@@ -62,8 +69,8 @@ fn is_primary(k: Kind) -> bool {
 fn section(k: &str) -> usize {
     match k {
         "of" => 0,
-        "u" | "ua" | "s" | "l" => 1,
-        "n" => 2,
+        "u" | "ua" | "x" | "l" => 1,
+        "n" | "s" => 2,
         _ => 3,
     }
 }
@@ -83,6 +90,8 @@ fn add_edge(us: &mut [Unit], rng: &mut Rng, from: usize, to: usize, swallow_pm: 
                 "i"
             } else if rng.chance(swallow_pm, 1000) {
                 "s"
+            } else if rng.chance(1, 8) {
+                "x"
             } else {
                 "u"
             }
@@ -91,7 +100,7 @@ fn add_edge(us: &mut [Unit], rng: &mut Rng, from: usize, to: usize, swallow_pm: 
             if rng.chance(swallow_pm, 1000) {
                 "s"
             } else {
-                *rng.pick(&["u", "ua", "ua", "n", "n"])
+                *rng.pick(&["u", "ua", "ua", "n", "n", "x"])
             }
         }
     };
@@ -99,19 +108,28 @@ fn add_edge(us: &mut [Unit], rng: &mut Rng, from: usize, to: usize, swallow_pm: 
 }
 
 fn gen_case(rng: &mut Rng, id: usize, maxunits: usize) -> Value {
+    let shapes = [
+        "dag", "cycle", "nested", "tails_chords", "self_use", "lib_all", "swallow", "dense", "cycle", "tails_chords", "dag", "dag",
+        "arch_cycle", "arch_cycle", "symtab",
+    ];
+    let shape = shapes[rng.below(shapes.len())];
+    if shape == "symtab" {
+        return gen_symtab(rng, id);
+    }
     let nlib = 1 + rng.below(3);
     let n = 2 + rng.below(maxunits.max(3) - 1);
+    let p_pkg = if shape == "arch_cycle" { 2 } else { 7 };
     let mut us: Vec<Unit> = Vec::new();
     let mut nfiles = 0;
-    while us.len() < n {
+    while us.len() < n || (shape == "arch_cycle" && us.iter().filter(|u| u.kind == Kind::A).count() < 3) {
         let lib = rng.below(nlib);
-        if rng.chance(7, 10) {
+        if rng.chance(p_pkg, 10) {
             us.push(Unit { lib, kind: Kind::P, of: 0, file: nfiles, reqs: vec![] });
             nfiles += 1;
         } else {
             let e = us.len();
             us.push(Unit { lib, kind: Kind::E, of: 0, file: nfiles, reqs: vec![] });
-            let na = rng.below(3);
+            let na = if shape == "arch_cycle" { 1 + rng.below(2) } else { rng.below(3) };
             for _ in 0..na {
                 let same_file = rng.chance(1, 2);
                 if !same_file {
@@ -123,10 +141,6 @@ fn gen_case(rng: &mut Rng, id: usize, maxunits: usize) -> Value {
         }
     }
     let n = us.len();
-    let shapes = [
-        "dag", "cycle", "nested", "tails_chords", "self_use", "lib_all", "swallow", "dense", "cycle", "tails_chords", "dag", "dag",
-    ];
-    let shape = shapes[rng.below(shapes.len())];
     let swallow_pm = if shape == "swallow" { 250 } else { 15 };
     // a random order for the acyclic background
     let mut perm: Vec<usize> = (0..n).collect();
@@ -200,6 +214,33 @@ fn gen_case(rng: &mut Rng, id: usize, maxunits: usize) -> Value {
                 add_edge(&mut us, rng, from, to, swallow_pm); // tail into the cycle
             }
         }
+        "arch_cycle" => {
+            // architectures instantiating each other (`entity l.e(a)` in both directions), more
+            // architectures / units using members of the cycle
+            let mut arch: Vec<usize> = (0..n).filter(|&u| us[u].kind == Kind::A).collect();
+            for i in (1..arch.len()).rev() {
+                arch.swap(i, rng.below(i + 1));
+            }
+            let len = (2 + rng.below(2)).min(arch.len());
+            let cyc: Vec<usize> = arch[..len].to_vec();
+            for i in 0..cyc.len() {
+                let (from, to) = (cyc[i], cyc[(i + 1) % cyc.len()]);
+                us[from].reqs.push(Req { k: "j", t: to });
+            }
+            for &a in arch[len..].iter() {
+                let to = *rng.pick(&cyc);
+                us[a].reqs.push(Req { k: "j", t: to });
+            }
+            if rng.chance(1, 2) {
+                // an entity of the cycle refers back to another entity of the cycle
+                let a = us[cyc[0]].of;
+                let b = us[cyc[1]].of;
+                add_edge(&mut us, rng, a, b, 0);
+            }
+            let from = rng.below(n);
+            let to = us[*rng.pick(&cyc)].of;
+            add_edge(&mut us, rng, from, to, 0);
+        }
         "self_use" => {
             let u = *rng.pick(&prim);
             add_edge(&mut us, rng, u, u, swallow_pm);
@@ -244,10 +285,62 @@ fn gen_case(rng: &mut Rng, id: usize, maxunits: usize) -> Value {
             rs.swap(i, rng.below(i + 1));
         }
         rs.sort_by_key(|r| section(r.k));
-        rs.truncate(6);
+        if shape != "arch_cycle" {
+            rs.truncate(6);
+        }
         us[u].reqs = rs;
     }
     render(rng, id, shape, nlib, &us, nfiles)
+}
+
+/// many files that all use the same, not yet interned, extended and mixed-case identifiers:
+/// parallel parsing races on the symbol table (`SymbolTable::insert_new`)
+fn gen_symtab(rng: &mut Rng, id: usize) -> Value {
+    // Every file walks through the same segments of fresh identifiers; inside a segment the
+    // files with an even number go up and the odd ones go down, so that two workers parsing an
+    // even and an odd file at the same time meet at an identifier that neither has interned yet.
+    let nfiles = 17 + rng.below(24);
+    let nseg = 4 + rng.below(5);
+    let seglen = 40 + rng.below(40);
+    let tag = rng.below(100000);
+    let ext = |sg: usize, i: usize| format!("\\Id {tag} {sg} {i}\\");
+    let basic = |sg: usize, i: usize, style: usize| match style {
+        0 => format!("Sig_{tag}_X{sg}_{i}"),
+        1 => format!("SIG_{tag}_x{sg}_{i}"),
+        _ => format!("sig_{tag}_X{sg}_{i}"),
+    };
+    let mut files: Vec<Value> = Vec::new();
+    let mut units: Vec<Value> = Vec::new();
+    let mut t0 = String::from("package pk is\n");
+    for sg in 0..nseg {
+        for i in 0..seglen {
+            t0.push_str(&format!("  constant {} : integer := {i};\n", ext(sg, i)));
+            if i % 4 == 0 {
+                t0.push_str(&format!("  constant {} : integer := {i};\n", basic(sg, i, 0)));
+            }
+        }
+    }
+    t0.push_str("end package;\n");
+    files.push(json!({"name": "f0.vhd", "lib": 0, "text": t0}));
+    units.push(json!({"u": 0, "lib": 0, "kind": "P", "name": "pk", "of": 0, "file": "f0.vhd", "reqs": []}));
+    for f in 1..nfiles {
+        let mut t = String::from("use work.pk.all;\n");
+        t.push_str(&format!("package q{f} is\n"));
+        for sg in 0..nseg {
+            for j in 0..seglen {
+                let i = if f % 2 == 0 { j } else { seglen - 1 - j };
+                t.push_str(&format!("  constant a{sg}_{i} : integer := {};\n", ext(sg, i)));
+                if i % 4 == 0 {
+                    t.push_str(&format!("  constant b{sg}_{i} : integer := {};\n", basic(sg, i, 1 + (f + i) % 2)));
+                }
+            }
+        }
+        t.push_str("end package;\n");
+        files.push(json!({"name": format!("f{f}.vhd"), "lib": 0, "text": t}));
+        units.push(json!({"u": f, "lib": 0, "kind": "P", "name": format!("q{f}"), "of": 0, "file": format!("f{f}.vhd"),
+                          "reqs": [{"k": "ua", "t": 0, "line": 1}]}));
+    }
+    json!({"id": id, "shape": "symtab", "nlib": 1, "units": units, "files": files})
 }
 
 fn render(rng: &mut Rng, id: usize, shape: &str, nlib: usize, us: &[Unit], nfiles: usize) -> Value {
@@ -281,7 +374,7 @@ fn render(rng: &mut Rng, id: usize, shape: &str, nlib: usize, us: &[Unit], nfile
             let txt = match r.k {
                 "u" => format!("use {}.{};", libname(u, us[r.t].lib, rng), unit_name(r.t, us)),
                 "ua" => format!("use {}.{}.all;", libname(u, us[r.t].lib, rng), unit_name(r.t, us)),
-                "s" => format!("use {}.{}.k(0);", libname(u, us[r.t].lib, rng), unit_name(r.t, us)),
+                "x" => format!("use {}.{}.k(0);", libname(u, us[r.t].lib, rng), unit_name(r.t, us)),
                 _ => format!("use l{}.all;", r.t),
             };
             lines.push(txt);
@@ -301,11 +394,19 @@ fn render(rng: &mut Rng, id: usize, shape: &str, nlib: usize, us: &[Unit], nfile
         }
         for r in unit.reqs.iter().filter(|r| section(r.k) == 2) {
             cix += 1;
-            lines.push(format!(
-                "  constant c{cix} : integer := {}.{}.k;",
-                libname(u, us[r.t].lib, rng),
-                unit_name(r.t, us)
-            ));
+            if r.k == "s" {
+                lines.push(format!(
+                    "  alias g{cix} is true [nonexistent_t, {}.{}.k return boolean];",
+                    libname(u, us[r.t].lib, rng),
+                    unit_name(r.t, us)
+                ));
+            } else {
+                lines.push(format!(
+                    "  constant c{cix} : integer := {}.{}.k;",
+                    libname(u, us[r.t].lib, rng),
+                    unit_name(r.t, us)
+                ));
+            }
             push_req(&mut jreqs, r, lines.len());
         }
         if unit.kind == Kind::A {
@@ -500,6 +601,119 @@ fn run_case(case: &Value, workdir: &Path, k: usize, seed: u64, verbose: bool) ->
     v
 }
 
+// ------------------------------------------------------------------------------------------
+// direct stress of the symbol table: T threads intern the same fresh names at the same time
+// ------------------------------------------------------------------------------------------
+fn norm_key(name: &str) -> String {
+    if name.starts_with('\\') {
+        name.to_string()
+    } else {
+        name.to_lowercase()
+    }
+}
+
+fn symtab_stress(seed: u64, rounds: usize, threads: usize) -> Value {
+    use std::sync::{Arc, Barrier};
+    use vhdl_lang::verif::data::{Latin1String, Symbol, SymbolTable};
+    let mut rng = Rng::new(seed ^ 0x5157_AB);
+    let mut problems: Vec<String> = Vec::new();
+    let mut ninserts = 0usize;
+    for round in 0..rounds {
+        let n = 20 + rng.below(60);
+        let tag = rng.below(1000000);
+        // names: extended (case-sensitive), basic in three spellings (case-insensitive), and a
+        // basic name whose text equals the inside of an extended one
+        let mut names: Vec<String> = Vec::new();
+        for i in 0..n {
+            names.push(format!("\\Ext{tag}_{i}\\"));
+            names.push(format!("\\ext{tag}_{i}\\"));
+            names.push(format!("Bas{tag}_{i}"));
+            names.push(format!("bas{tag}_{i}"));
+            names.push(format!("BAS{tag}_{i}"));
+            names.push(format!("Ext{tag}_{i}"));
+        }
+        let names = Arc::new(names);
+        let table = Arc::new(SymbolTable::default());
+        let barrier = Arc::new(Barrier::new(threads));
+        let mut handles = Vec::new();
+        for t in 0..threads {
+            let (names, table, barrier) = (names.clone(), table.clone(), barrier.clone());
+            let rot = if t % 2 == 0 { 0 } else { (round + t) % 7 };
+            handles.push(std::thread::spawn(move || {
+                let mut out: Vec<(usize, Symbol)> = Vec::with_capacity(names.len());
+                barrier.wait();
+                for j in 0..names.len() {
+                    let i = (j + rot) % names.len();
+                    let l = Latin1String::from_utf8(&names[i]).unwrap();
+                    let sym = if names[i].starts_with('\\') { table.insert_extended(&l) } else { table.insert(&l) };
+                    out.push((i, sym));
+                }
+                out
+            }));
+        }
+        let mut per_thread: Vec<Vec<Option<Symbol>>> = Vec::new();
+        for h in handles {
+            match h.join() {
+                Ok(v) => {
+                    let mut row: Vec<Option<Symbol>> = vec![None; names.len()];
+                    for (i, s) in v {
+                        row[i] = Some(s);
+                    }
+                    per_thread.push(row);
+                }
+                Err(_) => problems.push(format!("round {round}: a thread panicked inside SymbolTable::insert")),
+            }
+        }
+        ninserts += names.len() * threads;
+        if per_thread.is_empty() {
+            continue;
+        }
+        // reference: what a lookup returns after all threads are done
+        let finals: Vec<Option<Symbol>> =
+            names.iter().map(|nm| table.lookup(&Latin1String::from_utf8(nm).unwrap())).collect();
+        for i in 0..names.len() {
+            let Some(fin) = finals[i].as_ref() else {
+                problems.push(format!("round {round}: name {} not in the table after insertion", names[i]));
+                continue;
+            };
+            if fin.name_utf8() != names[i] {
+                problems.push(format!("round {round}: lookup of {} returns a symbol named {}", names[i], fin.name_utf8()));
+            }
+            for (t, row) in per_thread.iter().enumerate() {
+                if let Some(s) = row[i].as_ref() {
+                    if s != fin {
+                        problems.push(format!(
+                            "round {round}: thread {t} got a symbol for {} that differs from the table's symbol (two ids for one identifier)",
+                            names[i]
+                        ));
+                    }
+                }
+            }
+        }
+        for i in 0..names.len() {
+            for j in 0..i {
+                if let (Some(a), Some(b)) = (finals[i].as_ref(), finals[j].as_ref()) {
+                    let same = norm_key(&names[i]) == norm_key(&names[j]);
+                    if same != (a == b) {
+                        problems.push(format!(
+                            "round {round}: symbols of {} and {} are {} but must be {}",
+                            names[i],
+                            names[j],
+                            if a == b { "equal" } else { "different" },
+                            if same { "equal" } else { "different" }
+                        ));
+                    }
+                }
+            }
+        }
+        if problems.len() > 20 {
+            break;
+        }
+    }
+    problems.truncate(20);
+    json!({"threads": threads, "rounds": rounds, "inserts": ninserts, "problems": problems})
+}
+
 fn main() {
     let args: Vec<String> = std::env::args().collect();
     std::panic::set_hook(Box::new(|_| {}));
@@ -558,8 +772,16 @@ fn main() {
             let v = run_case(&case, &workdir, k, seed, true);
             println!("END 0 {k} {v}");
         }
+        Some("symtab") => {
+            let seed: u64 = args[2].parse().unwrap();
+            let rounds: usize = args[3].parse().unwrap();
+            for t in args[4].split(',') {
+                let threads: usize = t.parse().unwrap();
+                println!("{}", symtab_stress(seed, rounds, threads));
+            }
+        }
         _ => {
-            eprintln!("usage: c04 gen|run|one ...");
+            eprintln!("usage: c04 gen|run|one|symtab ...");
             std::process::exit(2);
         }
     }
